@@ -158,9 +158,9 @@ def eval_hist(mode, D, h, xs_f, qs_f):
     return xs, cs, qs, rs
 
 
-def model_eval_line(mode, bins, mn, mx, xs, qs, nonnull):
+def model_eval_line(mode, bins, mn, mx, xs, qs, count, missing=0):
     return "C14 eval " + wire.line(mode, [[wv(mode, v), wv(mode, f)] for v, f in bins], wv(mode, mn), wv(mode, mx),
-                                   [wv(mode, x) for x in xs], [wv(mode, q) for q in qs], wv(mode, nonnull))
+                                   [wv(mode, x) for x in xs], [wv(mode, q) for q in qs], wv(mode, count), wv(mode, missing))
 
 
 def dec_vals(mode, vals):
@@ -256,51 +256,112 @@ def build_profile(values):
     return df.profile.column("a")
 
 
+def gen_values(g):
+    """Deterministic large column for `{"gen": {...}}` cases (a frame of more than one profiler batch)."""
+    import random
+
+    rng = random.Random(g["seed"])
+    n, shape = g["n"], g["shape"]
+    if shape == "zero-min":
+        vals = [rng.randint(0, g.get("span", 400)) for _ in range(n)]
+        vals[rng.randrange(min(n, 20000))] = 0
+    elif shape == "zero-max":
+        vals = [-rng.randint(0, g.get("span", 400)) for _ in range(n)]
+        vals[n - 1 - rng.randrange(min(n, 3000))] = 0
+    else:
+        vals = [rng.randint(-g.get("span", 400), g.get("span", 400)) for _ in range(n)]
+    if g.get("nulls"):
+        for i in range(0, n, g["nulls"]):
+            vals[i] = None if vals[i] != 0 else 0
+    return vals
+
+
+def profile_parts(case):
+    """-> (all values in order, list of batches to profile separately and add, or None for one frame)."""
+    if "batches" in case:
+        bs = case["batches"]
+        if case.get("order") == "ba":
+            bs = list(reversed(bs))
+        return [v for b in bs for v in b], bs
+    if "gen" in case:
+        return gen_values(case["gen"]), None
+    return case["values"], None
+
+
 def run_profile_case(case):
     res = Res()
     res.fail = None
     res.items = []
     res.c13_failed = False
-    values = case["values"]
+    values, batches = profile_parts(case)
     nn = [v for v in values if v is not None]
     try:
-        col = build_profile(values)
+        if batches is None:
+            col = build_profile(values)
+        else:
+            col = build_profile(batches[0])
+            for b in batches[1:]:
+                col = col + build_profile(b)
     except Exception as e:
         res.fail = ("raised: profiling an integer column raised %s" % type(e).__name__, {"error": repr(e)[:200]})
         return res
     nonnull = col.count - col.missing
     lo, hi = min(nn), max(nn)
-    probes = sorted(set([lo, hi] + [p for p in case.get("probes", []) if lo <= p <= hi]))
+    extra = sorted(set(nn))[:60] if case.get("probe_distinct") else []
+    probes = sorted(set([lo, hi] + extra + [p for p in case.get("probes", []) if lo <= p <= hi]))
     below, above = [], []
     try:
         for p in probes:
             below.append(exact(col.estimate_values_below(p)))
             above.append(exact(col.estimate_values_above(p)))
     except Exception as e:
-        res.fail = ("raised: profile estimator raised %s" % type(e).__name__, {"error": repr(e)[:200]})
+        res.fail = ("raised: profile estimator raised %s" % type(e).__name__, {"error": repr(e)[:200], "min": col.minimum, "max": col.maximum,
+                                                                                "true_range": [lo, hi]})
         return res
     tol = TOL * max(nonnull, 1)
     prev = None
+    prev_clean = None
+    left_fail = None
+    hist = list(col.histogram)
+    v0, f0 = (float(hist[0][0]), int(hist[0][1])) if hist else (None, None)
+    pmin = col.minimum
     for p, b, a in zip(probes, below, above):
-        d = {"point": p, "below": None if b is None else float(b), "above": None if a is None else float(a), "non_null": nonnull,
-             "min": col.minimum, "max": col.maximum}
+        d = {"point": p, "x": p, "below": None if b is None else float(b), "above": None if a is None else float(a), "non_null": nonnull,
+             "min": col.minimum, "max": col.maximum, "first_centre": v0, "first_count": f0}
+        # a merged profile whose first two bins were merged has a left tail (min < p <= first centre): open finding C14-K01
+        in_left = v0 is not None and pmin is not None and pmin < p <= v0
+        bad = None
         if b is None or a is None:
-            res.fail = ("profile: estimate is None inside the observed range", d)
+            bad = "profile: estimate is None inside the observed range"
         elif abs(b + a - nonnull) > tol:
-            res.fail = ("profile: below + above is not the number of non-null values", d)
-        elif b < -tol or b > nonnull + tol or a < -tol or a > nonnull + tol:
-            res.fail = ("profile: estimate outside [0, non-null]", d)
+            bad = "profile: below + above is not the number of non-null values"
         elif p == lo and b != 0:
-            res.fail = ("profile: values below the minimum is not 0", d)
+            bad = "profile: values below the minimum is not 0"
         elif p == hi and lo < hi and abs(b - nonnull) > tol:
-            res.fail = ("profile: values up to the maximum is not the number of non-null values", d)
-        elif prev is not None and b < prev - tol:
-            res.fail = ("profile: values below decreases", d)
-        if res.fail:
-            return res
+            bad = "profile: values up to the maximum is not the number of non-null values"
+        elif b < -tol or b > nonnull + tol or a < -tol or a > nonnull + tol:
+            bad = "profile: estimate outside [0, non-null]"
+        elif in_left and prev is not None and b < prev - tol:
+            bad = "profile: estimate of values below decreases"
+        elif not in_left and prev_clean is not None and b < prev_clean - tol:
+            bad = "profile: estimate of values below decreases"
+        if bad is not None:
+            if in_left and bad.startswith("profile: estimate"):
+                d["left_tail"] = True
+                left_fail = left_fail or (bad, d)
+            else:
+                res.fail = (bad, d)
+                return res
+        elif not in_left and left_fail is None and prev is not None and b < prev - tol:
+            d["left_tail"] = True
+            d["x1"] = probes[probes.index(p) - 1]
+            left_fail = ("profile: estimate of values below decreases", d)
+        if not in_left:
+            prev_clean = b
         prev = b
-    bins = [(v, int(f)) for v, f in col.histogram]
-    line = model_eval_line("f", bins, col.minimum, col.maximum, [float(p) for p in probes], [], nonnull)
+    res.fail = left_fail
+    bins = [(v, int(f)) for v, f in hist]
+    line = model_eval_line("f", bins, col.minimum, col.maximum, [float(p) for p in probes], [], int(col.count), int(col.missing))
     res.items.append(("profile", line, below, above, Fraction(nonnull), Fraction(1), probes, [], set()))
     return res
 
@@ -313,7 +374,16 @@ def valid_case(c):
     if not isinstance(c, dict):
         return False
     if c.get("kind") == "profile":
-        vs = c.get("values")
+        if "gen" in c:
+            g = c["gen"]
+            return isinstance(g, dict) and isinstance(g.get("n"), int) and 1 <= g["n"] <= 80000 and isinstance(g.get("seed"), int) and g.get("shape") in ("zero-min", "zero-max", "mixed")
+        if "batches" in c:
+            bs = c["batches"]
+            if not isinstance(bs, list) or len(bs) < 2 or not all(isinstance(b, list) and b for b in bs) or c.get("order", "ab") not in ("ab", "ba"):
+                return False
+            vs = [v for b in bs for v in b]
+        else:
+            vs = c.get("values")
         if not isinstance(vs, list) or not any(v is not None for v in vs):
             return False
         if not all(v is None or (isinstance(v, int) and not isinstance(v, bool) and abs(v) < 2**50) for v in vs):
@@ -345,6 +415,8 @@ def evaluate(ctx, cases):
         kind = c.get("kind", "hist")
         ctx.case(c, nontrivial=bool(r.items) or r.fail is not None)
         ctx.hit("kind:" + kind)
+        if kind == "profile":
+            ctx.hit("family:" + c.get("family", "profile:?"))
         if kind == "hist":
             ctx.hit("mode:" + c["mode"])
             ctx.hit("family:" + c.get("family", "?"))
@@ -375,7 +447,7 @@ def evaluate(ctx, cases):
                     return False
                 return r2.fail is not None and _kind(r2.fail[0]) == k0 and r2.fail[0].split(":")[1][:12] == clause.split(":")[1][:12]
 
-            c_min = c if ctx.replaying else shrink(c, still, budget=ctx.scale(200, 500))
+            c_min = c if ctx.replaying else shrink(c, still, budget=8 if "gen" in c else ctx.scale(200, 500))
             r2 = run_case(c_min)
             f = r2.fail or r.fail
             ctx.fail(c_min, f[0], impl=f[1], model=None, detail=f[1])
@@ -458,6 +530,50 @@ def random_profile_case(ctx):
     return {"kind": "profile", "values": values, "probes": sorted(probes), "family": "profile:" + shape}
 
 
+CUT_COLUMNS = [
+    [0, 3, 7], [0, 0, 5, 9], [-5, -2, 0], [-4, 0, 6], [0, None, 4, 9, 2], [-3, None, 0, 0], [5, 1, 0, 8, None, 3],
+    [-1, -1, -7, 0, -2], [0, 1], [-1, 0], [2, 9, 4], [-2, -9, -4], [0, 0, 0], [7, 0], [0, -7], [3, 8, 0, None], [None, 0, -6, -1],
+]
+
+
+def midpoints(vals):
+    d = sorted(set(v for v in vals if v is not None))
+    return [(a + b) / 2 for a, b in zip(d, d[1:])]
+
+
+def cut_cases(ctx, n_random):
+    """Every cut of small integer columns into two batches whose profiles are added, in both orders; zero, negative
+    and positive extremes fall into either batch."""
+    rng = ctx.rng
+    cols = [list(c) for c in CUT_COLUMNS]
+    for _ in range(n_random):
+        n = rng.randint(2, 7)
+        sgn = rng.choice([1, -1, 1, -1, 0])
+        col = [(rng.randint(0, 9) * sgn if sgn else rng.randint(-6, 6)) if rng.random() > 0.12 else None for _ in range(n)]
+        col[rng.randrange(n)] = 0
+        cols.append(col)
+    for col in cols:
+        for cut in range(1, len(col)):
+            a, b = col[:cut], col[cut:]
+            if all(v is None for v in col):
+                continue
+            for order in ("ab", "ba"):
+                yield {"kind": "profile", "batches": [a, b], "order": order, "probes": midpoints(col), "probe_distinct": True,
+                       "family": "profile:cut"}
+
+
+def big_frame_cases(ctx):
+    """Frames of more than one profiler batch (25000 rows): the batch profiles are added inside `DataFrame.profile`."""
+    rng = ctx.rng
+    for shape in ("zero-min", "zero-max", "mixed"):
+        g = {"n": 25000 + rng.choice([1, 700, 9000]), "seed": rng.randint(0, 10**6), "shape": shape, "span": rng.choice([6, 40, 400]),
+             "nulls": rng.choice([0, 7, 0])}
+        vals = [v for v in gen_values(g) if v is not None]
+        lo, hi = min(vals), max(vals)
+        probes = sorted(set([lo, hi, 0] + [rng.randint(lo, hi) for _ in range(25)] + [rng.randint(lo, hi) + 0.5 for _ in range(10)]))
+        yield {"kind": "profile", "gen": g, "probes": [p for p in probes if lo <= p <= hi], "family": "profile:batches"}
+
+
 BOUNDARY = [
     # left tail of count_at: positive, large and negative centres
     {"kind": "hist", "mode": "f", "family": "boundary", "grid": 16, "levels": 16,
@@ -491,6 +607,12 @@ def run(ctx):
             evaluate(ctx, [w])
             ctx.hit("corpus:fixed-finding-witness")
     evaluate(ctx, [dict(c) for c in BOUNDARY])
+    cuts = list(cut_cases(ctx, ctx.scale(25, 400)))
+    ctx.note("profile_cut_cases", len(cuts))
+    for i in range(0, len(cuts), 100):
+        evaluate(ctx, cuts[i : i + 100])
+    for _ in range(ctx.scale(2, 12)):
+        evaluate(ctx, list(big_frame_cases(ctx)))
     n_h = ctx.scale(900, 12000)
     n_p = ctx.scale(150, 2500)
     done_h = done_p = 0
@@ -521,13 +643,14 @@ def _k01(case, failure):
     instead of its count.  Matches only bound/monotonicity failures that involve a left-tail point of a
     histogram whose first centre is neither the minimum nor within [0, first count]."""
     d = failure.get("detail") or {}
-    if not str(failure.get("clause", "")).startswith("count_at: estimate") or not isinstance(d, dict) or not d.get("left_tail"):
+    clause = str(failure.get("clause", ""))
+    if not (clause.startswith("count_at: estimate") or clause.startswith("profile: estimate")) or not isinstance(d, dict) or not d.get("left_tail"):
         return False
     lo, v0, f0 = d.get("min"), d.get("first_centre"), d.get("first_count")
     if lo is None or v0 is None or f0 is None or lo == v0 or 0 <= v0 <= f0:
         return False
     pts = [d[k] for k in ("x", "x1", "x2") if k in d]
-    return case.get("kind", "hist") == "hist" and any(lo < x <= v0 for x in pts)
+    return any(lo < x <= v0 for x in pts)
 
 
 KNOWN_PREDICATES = {"count_at_left_tail_uses_value": _k01}
